@@ -457,11 +457,14 @@ func scenarioImports(scs []*Scenario) []string {
 
 func convHeaderWith(imps []string) string {
 	var b strings.Builder
-	b.WriteString("package conv\n\nimport (\n\t\"fmt\"\n\t\"unsafe\"\n\n\t\"vx/in\"\n\t\"vx/out\"\n")
+	b.WriteString("package conv\n\nimport (\n\t\"fmt\"\n\t\"unsafe\"\n\n\t\"vx/in\"\n\t\"vx/out\"\n\t\"vx/third\"\n")
 	for _, i := range imps {
+		if i == "third" {
+			continue
+		}
 		fmt.Fprintf(&b, "\t%s\n", space.ImportSpec(i))
 	}
-	b.WriteString(")\n\nvar (\n\t_ unsafe.Pointer\n\t_ in.MyInt\n\t_ out.MyInt\n\t_ = fmt.Sprint\n)\n" + boomSource + c14Support + "\n")
+	b.WriteString(")\n\nvar (\n\t_ unsafe.Pointer\n\t_ in.MyInt\n\t_ out.MyInt\n\t_ third.ID3\n\t_ = fmt.Sprint\n)\n" + boomSource + c14Support + "\n")
 	return b.String()
 }
 
